@@ -624,9 +624,10 @@ func (g *c35G) genRTMP() *c35Input {
 				if g.odd(8) {
 					sps = g.pickBytes([]byte{0x67}, []byte{}, []byte{0x67, 0x42}, bytes.Repeat([]byte{0x67}, 300), []byte{0x67, 0x64, 0x00, 0x0a, 0xff, 0xff, 0xff, 0xff})
 				}
-				write(&message.Video{ChunkStreamID: message.VideoChunkStreamID, MessageStreamID: 0x1000000, Codec: message.CodecH264, IsKeyFrame: true, Type: message.VideoTypeConfig,
-					AVCConfig: &mp4.AVCDecoderConfiguration{ConfigurationVersion: 1, Profile: 0x42, ProfileCompatibility: 0xc0, Level: 0x28, LengthSizeMinusOne: 3, NumOfSequenceParameterSets: 1,
-						SequenceParameterSets: []mp4.AVCParameterSet{{Length: uint16(len(sps)), NALUnit: sps}}, NumOfPictureParameterSets: 1, PictureParameterSets: []mp4.AVCParameterSet{{Length: uint16(len(pps)), NALUnit: pps}}}}, "video-config")
+				avcc := &mp4.AVCDecoderConfiguration{ConfigurationVersion: 1, Profile: 0x42, ProfileCompatibility: 0xc0, Level: 0x28, LengthSizeMinusOne: 3, NumOfSequenceParameterSets: 1,
+					SequenceParameterSets: []mp4.AVCParameterSet{{Length: uint16(len(sps)), NALUnit: sps}}, NumOfPictureParameterSets: 1, PictureParameterSets: []mp4.AVCParameterSet{{Length: uint16(len(pps)), NALUnit: pps}}}
+				avcc.SetType(mp4.BoxTypeAvcC())
+				write(&message.Video{ChunkStreamID: message.VideoChunkStreamID, MessageStreamID: 0x1000000, Codec: message.CodecH264, IsKeyFrame: true, Type: message.VideoTypeConfig, AVCConfig: avcc}, "video-config")
 			}
 			if !g.odd(12) {
 				write(&message.Audio{ChunkStreamID: message.AudioChunkStreamID, MessageStreamID: 0x1000000, Codec: message.CodecMPEG4Audio, Rate: message.AudioRate44100, Depth: message.AudioDepth16, IsStereo: true, AACType: message.AudioAACTypeConfig,
